@@ -10,6 +10,7 @@ import (
 	"fmt"
 	"io"
 	"net/http"
+	goruntime "runtime"
 	"sort"
 	"strings"
 	"sync"
@@ -488,6 +489,18 @@ func e18DiffCase(pkg string, seed uint64, n int, foreign string) Case {
 			}
 		}
 		core.Barrier()
+		// after shutdown the typed surface answers like the untyped one (an error, not
+		// "object does not exist")
+		for lbl := range sides[0].nodes {
+			_, te := sides[0].nodes[lbl].get("n0", "a")
+			_, ue := sides[1].nodes[lbl].get("n0", "a")
+			_, tle := sides[0].nodes[lbl].list()
+			_, ule := sides[1].nodes[lbl].list()
+			r.Add("post-shutdown-read-comparisons", 1)
+			if (te == nil) != (ue == nil) || (tle == nil) != (ule == nil) {
+				r.V("C20", "post-shutdown-read-differs", "%s: after the controllers stopped, node %s: typed Get error=%v List error=%v, untyped Get error=%v List error=%v", pkg, lbl, te, tle, ue, ule)
+			}
+		}
 		for _, sd := range sides {
 			for lbl, n := range sd.nodes {
 				if !isClosed(n.done) {
@@ -538,6 +551,77 @@ func callSeq(p *typedPkg, calls []hcall, r *Res, pkg string) []string {
 		out = append(out, fmt.Sprintf("%s %s@%s", c.Kind, kit.Key(c.Objs[0]), c.Objs[0].GetResourceVersion()))
 	}
 	return out
+}
+
+// e18TailCase: everything a typed filtered subscription has been handed before
+// its parent shut down must come out of the typed channel before that closes:
+// after Refilter(accept-all) on N objects immediately followed by Close(), the
+// typed stream holds all N creates or none (the refilter lost the race), never
+// a truncated batch.
+func e18TailCase(pkg string, seed uint64, n int) Case {
+	id := fmt.Sprintf("E18/tail/%s/%d/%d", pkg, seed, n)
+	return Case{ID: id, Desc: map[string]interface{}{"package": pkg, "what": "Refilter batch then immediate Close: all-or-nothing on the typed stream", "attempts": 12}, Bubble: true, Run: func(r *Res) {
+		p := typedPkgByName(pkg)
+		rng := kit.NewRng(kit.Mix(seed, uint64(n)+1880+kit.HashStr(pkg)))
+		const N = 60
+		for attempt := 0; attempt < 12; attempt++ {
+			core := kit.NewCore(&kit.Plan{Seed: rng.U64(), PYield: 200})
+			srv := kit.NewServer(core, p.newList)
+			for i := 0; i < N; i++ {
+				srv.Put(p.newObj("n0", fmt.Sprintf("o%02d", i), map[string]string{"l": "x"}))
+			}
+			ctx, cancel := ctxWithCancel()
+			tc, err := p.build(ctx, kit.NewLog(core), srv)
+			if err != nil {
+				cancel()
+				r.V("C20", "typed-build-error", "%v", err)
+				return
+			}
+			sub, err := tc.subscribeForFilter()
+			if err != nil || !waitCh(tc.ready, virtBound) {
+				cancel()
+				r.V("C20", "surface-error", "SubscribeForFilter: %v", err)
+				return
+			}
+			sub.refilter(kit.TLabels(map[string]string{"l": "none"}).Build()) // ready, empty, no events
+			core.Barrier()
+			ch := sub.start()
+			sub.refilter(kit.TNull().Build()) // N creates
+			for y := 0; y < attempt%4; y++ {
+				goruntime.Gosched()
+			}
+			if attempt%3 == 2 {
+				time.Sleep(time.Duration(attempt) * time.Microsecond)
+			}
+			within(tc.close)
+			cancel()
+			core.Barrier()
+			got := 0
+			timeout := time.After(time.Second)
+		drain:
+			for {
+				select {
+				case _, ok := <-ch:
+					if !ok {
+						break drain
+					}
+					got++
+				case <-timeout:
+					break drain
+				}
+			}
+			r.Add("tail-attempts", 1)
+			if got == N {
+				r.Add("tail-attempts-with-full-batch", 1)
+			}
+			if got != 0 && got != N {
+				r.V("C20", "typed-stream-truncated-at-shutdown", "%s: Refilter(accept-all) over %d objects immediately followed by Close(): the typed stream delivered %d events before it was closed (the untyped core delivers every buffered event before closing: all %d or, if the refilter lost the race, none)", pkg, N, got, N)
+				return
+			}
+		}
+		r.Key(id)
+		r.Sample = map[string]interface{}{"package": pkg, "objects": N}
+	}}
 }
 
 // ---- (b) REST request recorder ---------------------------------------------------
@@ -707,6 +791,11 @@ func init() {
 					continue // nodes are cluster scoped; only the all-namespaces form is meaningful
 				}
 				cases = append(cases, e18RestCase(p, ns))
+			}
+		}
+		for _, p := range pk {
+			for i := 0; i < tierPick(tier, 1, 12); i++ {
+				cases = append(cases, e18TailCase(p, seed, i))
 			}
 		}
 		// the eight generated joins (and the double join) as instances of the join
